@@ -72,7 +72,13 @@ static int rec_init(void *ptr, const void *src)
 	if (e->id < MAXID) live[e->id] = (uint8_t) (1 + e->val);
 	return s ? 1 : 0;
 }
+static void fini_common(void *ptr);
 static void rec_fini(void *ptr)
+{
+	if (((struct elem *) ptr)->pad != 0) ++n_bad;     /* not an element of this type */
+	fini_common(ptr);
+}
+static void fini_common(void *ptr)
 {
 	struct elem *e = (struct elem *) ptr;
 	++n_fini;
@@ -84,6 +90,23 @@ static void rec_fini(void *ptr)
 	e->magic = M_DEAD;
 }
 static const MPT_STRUCT(type_traits) rec_traits = { rec_init, rec_fini, sizeof(struct elem) };
+
+/* second managed type of the recording kind: same layout, own init/fini (elements tagged pad = 1) */
+static int rec_init_b(void *ptr, const void *src)
+{
+	int r = rec_init(ptr, src);
+	if (r >= 0) ((struct elem *) ptr)->pad = 1;
+	return r;
+}
+static void rec_fini_b(void *ptr)
+{
+	if (((struct elem *) ptr)->pad != 1) ++n_bad;     /* not an element of this type */
+	fini_common(ptr);
+}
+static const MPT_STRUCT(type_traits) rec_traits_b = { rec_init_b, rec_fini_b, sizeof(struct elem) };
+static const MPT_STRUCT(type_traits) *plain_traits;   /* typed, but no init/fini */
+
+static int managed(const MPT_STRUCT(buffer) *b);
 
 /* arr kind: inner buffers */
 static MPT_STRUCT(buffer) *inner[MAXV + 1];
@@ -194,7 +217,20 @@ static const char *name_of(const MPT_STRUCT(buffer) *b)
 	if (!b) return "none";
 	if (!b->_content_traits) return "raw";
 	if (b->_content_traits == etraits) return "elem";
+	if (b->_content_traits == &rec_traits_b) return "elemB";
+	if (b->_content_traits == plain_traits) return "plain";
 	return "other";
+}
+static const MPT_STRUCT(type_traits) *traits_named(const char *t)
+{
+	if (!t || !strcmp(t, "elem")) return etraits;
+	if (!strcmp(t, "elemB")) return &rec_traits_b;
+	if (!strcmp(t, "plain")) return plain_traits;
+	return 0;   /* raw */
+}
+static int managed(const MPT_STRUCT(buffer) *b)
+{
+	return b && (b->_content_traits == etraits || (kind == K_REC && b->_content_traits == &rec_traits_b));
 }
 
 static void drv_reset(void)
@@ -230,7 +266,7 @@ static void emit_all(const char *ret)
 		const MPT_STRUCT(buffer) *b = arr[i]._buf;
 		size_t n = 0, s;
 		int count_here = (first_holder(i) == i);
-		if (b && b->_content_traits == etraits) n = (b->_used <= b->_size ? b->_used : b->_size) / esize;
+		if (managed(b)) n = (b->_used <= b->_size ? b->_used : b->_size) / esize;
 		j_sep();
 		fputc('[', drv_out);
 		for (s = 0; s < n; s++) {
@@ -264,7 +300,7 @@ static void emit_all(const char *ret)
 	j_arr_open("lens");
 	for (i = 0; i < nh; i++) {
 		const MPT_STRUCT(buffer) *b = arr[i]._buf;
-		j_item_int(b && b->_content_traits == etraits ? (long long) (b->_used / esize) : 0);
+		j_item_int(b ? (long long) (b->_used / esize) : 0);
 	}
 	j_arr_close();
 	j_arr_open("typs");
@@ -385,9 +421,16 @@ static void drv_step(struct cmd *c)
 		size_t i;
 		if (b) answer(c, "skipped", size0, used0, 0);
 		else {
+			const MPT_STRUCT(type_traits) *nt = traits_named(drv_raw(c, "typ"));
 			b = _mpt_buffer_alloc(dl * esize, flags);
-			b->_content_traits = etraits;
-			for (i = 0; i < dl; i++) make_elem(((uint8_t *) (b + 1)) + i * esize, data[i]);
+			b->_content_traits = nt;
+			if (nt == etraits || nt == &rec_traits_b) {
+				for (i = 0; i < dl; i++) {
+					make_elem(((uint8_t *) (b + 1)) + i * esize, data[i]);
+					if (nt == &rec_traits_b) ((struct elem *) (((uint8_t *) (b + 1)) + i * esize))->pad = 1;
+				}
+			}
+			else memset(b + 1, 0x99, dl * esize);         /* plain bytes, no elements */
 			b->_used = dl * esize;
 			ar->_buf = b;
 			answer(c, "ok", size0, used0, 0);
@@ -428,15 +471,17 @@ static void drv_step(struct cmd *c)
 		}
 	}
 	else if (!strcmp(a, "slice")) {
-		if (!is_elem) answer(c, "skipped", size0, used0, 0);
+		if (!b) answer(c, "skipped", size0, used0, 0);
 		else {
-			void *p = mpt_array_slice(ar, drv_uint(c, "off", 0) * esize, drv_uint(c, "n", 0) * esize);
+			size_t n = drv_uint(c, "n", 0) * esize;
+			int um = !managed(b);
+			uint8_t *p = (uint8_t *) mpt_array_slice(ar, drv_uint(c, "off", 0) * esize, n);
+			if (p && um && n) memset(p, 0x99, n);     /* the caller's bytes */
 			answer(c, p ? "ok" : "refused", size0, used0, 0);
 		}
 	}
 	else if (!strcmp(a, "reserve")) {
-		const char *t = drv_raw(c, "typ");
-		MPT_STRUCT(buffer) *r = mpt_array_reserve(ar, drv_uint(c, "len", 0) * esize, (t && !strcmp(t, "elem")) ? etraits : 0);
+		MPT_STRUCT(buffer) *r = mpt_array_reserve(ar, drv_uint(c, "len", 0) * esize, traits_named(drv_raw(c, "typ")));
 		answer(c, r ? "ok" : "refused", size0, used0, 0);
 	}
 	else if (!strcmp(a, "clone")) {
@@ -482,5 +527,6 @@ int main(int argc, char **argv)
 		etraits = &rec_traits;
 		esize = sizeof(struct elem);
 	}
+	plain_traits = mpt_type_traits('d');
 	return drv_main(argc, argv);
 }
